@@ -174,6 +174,7 @@ type Gen struct {
 	setAtUse        map[*SetClause]int
 	fuzzy           map[string]string // anchor -> source line matched approximately
 	anchorNotes     []string
+	driftedInv      map[*Clause]bool
 	freeVarNames    map[string]bool
 	inputCache      []inputTerm
 	unroll          int // > 0: concretisation mode (bounded unrolling instead of loop cutting)
@@ -1264,11 +1265,59 @@ func (g *Gen) checkInvariants(li *loopInfo, e edge, kind string) {
 	save := g.curPos
 	g.curPos = g.loopPos(li)
 	for _, c := range li.spec.Invariants {
+		if g.driftedInv[c] {
+			continue
+		}
 		ctx := &specCtx{g: g, st: st, old: g.entry}
-		goal := g.evalGoal(ctx, c.E)
+		goal, ok := g.evalGoalOrDrift(ctx, c, fmt.Sprintf("loop %d invariant", li.ordinal))
+		if !ok {
+			continue
+		}
 		g.oblige(st, kind, c.ID+":"+kind, fmt.Sprintf("loop %d invariant %s (%s)", li.ordinal, c.Src, kind), goal)
 	}
 	g.curPos = save
+}
+
+// evalGoalOrDrift: an invariant that names a local the (changed) code no longer has is contract drift - reported,
+// the clause is dropped for this run (neither checked nor assumed) - not a reason to give up the whole function.
+func (g *Gen) evalGoalOrDrift(ctx *specCtx, c *Clause, what string) (goal string, ok bool) {
+	ok = true
+	defer func() {
+		if r := recover(); r != nil {
+			if u, isU := r.(unsupportedErr); isU && strings.Contains(u.msg, "unknown identifier") {
+				ok = false
+				if g.driftedInv == nil {
+					g.driftedInv = map[*Clause]bool{}
+				}
+				g.driftedInv[c] = true
+				g.anchorNotes = append(g.anchorNotes, what+" `"+c.Src+"` names a variable the code no longer has: "+u.msg)
+				return
+			}
+			panic(r)
+		}
+	}()
+	goal = g.evalGoal(ctx, c.E)
+	return
+}
+
+func (g *Gen) evalAssumeOrDrift(ctx *specCtx, c *Clause, what string) (a string, ok bool) {
+	ok = true
+	defer func() {
+		if r := recover(); r != nil {
+			if u, isU := r.(unsupportedErr); isU && strings.Contains(u.msg, "unknown identifier") {
+				ok = false
+				if g.driftedInv == nil {
+					g.driftedInv = map[*Clause]bool{}
+				}
+				g.driftedInv[c] = true
+				g.anchorNotes = append(g.anchorNotes, what+" `"+c.Src+"` names a variable the code no longer has: "+u.msg)
+				return
+			}
+			panic(r)
+		}
+	}()
+	a = g.evalAssume(ctx, c.E)
+	return
 }
 
 func (g *Gen) loopPos(li *loopInfo) token.Pos {
@@ -1393,8 +1442,13 @@ func (g *Gen) havocLoop(li *loopInfo, base *State) *State {
 		save := g.curPos
 		g.curPos = g.loopPos(li)
 		for _, c := range li.spec.Invariants {
+			if g.driftedInv[c] {
+				continue
+			}
 			ctx := &specCtx{g: g, st: st, old: g.entry}
-			g.assume(st, g.evalAssume(ctx, c.E))
+			if a, ok := g.evalAssumeOrDrift(ctx, c, fmt.Sprintf("loop %d invariant", li.ordinal)); ok {
+				g.assume(st, a)
+			}
 		}
 		g.curPos = save
 	}
